@@ -205,7 +205,12 @@ async def execute(case, transport="mem"):
                         w, got, c, F["db"][c][w], executed), "I:probe_search_wrong")
         await probe.close()
         await world.tick()
-        return {"executed": executed, "branching": branching, "overlap": overlap, "ack": ack["state"]}
+        traces = []
+        for c in live + [probe]:
+            traces.append({"messages": [(m.get("type"), repr(m.get("decoded")) if "decoded" in m else hashlib.sha256(repr(m.get("content")).encode()).hexdigest()[:12])
+                                        for (_, m) in c.messages],
+                           "closed_by_server": c.server_closed_at is not None and (c.client_closed_at is None or c.server_closed_at < c.client_closed_at)})
+        return {"executed": executed, "branching": branching, "overlap": overlap, "ack": ack["state"], "traces": traces}
     finally:
         await world.stop()
 
@@ -290,11 +295,30 @@ def body(case, res):
                   sample={"scripts": case["scripts"], "events": info["executed"] if info else None})
 
 
+def fidelity_body(case, res):
+    """transport differential: the same schedule over the in-memory transport and over real loopback sockets must give the same
+    per-connection message traces (this is what licenses the in-memory exploration)"""
+    try:
+        a = run_once(case, "mem")
+    except Violation:
+        raise
+    b = run_once(case, "real")
+    res.count([case["scripts"], a["executed"], "fidelity"], a["overlap"], ["fidelity_pair", "connections:%d" % len(case["scripts"])],
+              sample={"scripts": case["scripts"], "events": a["executed"], "fidelity": True})
+    if a["executed"] != b["executed"]:
+        raise HarnessError("transport differential: the two transports enabled different events for %r: %r vs %r" % (
+            case["scripts"], a["executed"], b["executed"]))
+    if a["traces"] != b["traces"]:
+        raise HarnessError("transport differential: message traces differ for scripts %r events %r: mem %r real %r" % (
+            case["scripts"], a["executed"], a["traces"], b["traces"]))
+
+
 def shards(tier):
     pairs, triples = script_sets(tier)
     nsh = 8 if tier == "quick" else 14
     out = [{"kind": "exhaustive", "part": i, "of": nsh} for i in range(nsh)]
     out += [{"kind": "hyp", "i": i} for i in range(2 if tier == "quick" else 2)]
+    out += [{"kind": "fidelity", "i": i} for i in range(1 if tier == "quick" else 4)]
     return out
 
 
@@ -302,6 +326,9 @@ def run_shard(spec, seed, tier):
     res = ShardResult()
     if spec["kind"] == "hyp":
         hyp.search(res, st_case(), body, seed, 150 if tier == "quick" else 5000)
+        return res
+    if spec["kind"] == "fidelity":
+        hyp.search(res, st_case(), fidelity_body, seed, 8 if tier == "quick" else 60, shrink=False)
         return res
     pairs, triples = script_sets(tier)
     allscripts = pairs + triples
